@@ -168,6 +168,7 @@ class HistCase:
         reg = []                               # every non-leaf tensor created so far
         ctx_stack = []
         ng = 0
+        maybe = set()
         try:
             for step, act in enumerate(self.spec["history"]):
                 if act in ("B0", "B1"):
@@ -237,16 +238,22 @@ class HistCase:
                 elif act == "Za":
                     a.zero_()
                     acc["a"] = [S(sc.const(0))] * 2
-                elif act == "ZM":
-                    mod.zero_grad()
-                    acc = {k: [S(sc.const(0))] * 2 for k in acc}
-                elif act == "ZO":
-                    opt.zero_grad()
-                    acc = {k: [S(sc.const(0))] * 2 for k in acc}
+                elif act in ("ZM", "ZO"):
+                    (mod if act == "ZM" else opt).zero_grad()
+                    # a leaf that holds a gradient is cleared; one that holds none may stay without or get a buffer of zeros
+                    # (both are "the sum since the last reset"): marked "maybe" until a backward reaches it
+                    maybe |= {k for k in acc if acc[k] is None}
+                    acc = {k: ([S(sc.const(0))] * 2 if acc[k] is not None else None) for k in acc}
                 # leaves after every action
                 if env.sym:
                     for name, t in leaves.items():
-                        if acc[name] is None:
+                        if acc[name] is not None:
+                            maybe.discard(name)
+                        if acc[name] is None and name in maybe:
+                            if gradof(t) is not None:
+                                out.pair("sym:leaf %s cleared before it was ever reached holds zeros, if anything (after action %d)" % (name, step),
+                                         snapshot(gradof(t)), np.array([S(sc.const(0))] * 2, dtype=object).reshape(t.shape))
+                        elif acc[name] is None:
                             out.fact("leaf %s has no gradient before it is first reached (after action %d)" % (name, step),
                                      gradof(t) is None)
                         elif gradof(t) is None:
@@ -386,7 +393,7 @@ def _plain_reference(case, point):
         elif act == "Za":
             acc["a"] = np.zeros(2)
         elif act in ("ZM", "ZO"):
-            acc = {"a": np.zeros(2), "b": np.zeros(2)}
+            acc = {k_: (np.zeros(2) if v_ is not None else None) for k_, v_ in acc.items()}
     return acc
 
 
